@@ -366,6 +366,10 @@ fn check_node(step: usize, id: u8, ns: &NodeState, f: &Facts, out: &mut Outcome)
             return;
         }
     };
+    // the accessor of the witness-set bytes hands out what the transaction itself is serialized with
+    if ns.tx.raw_witness_set() != v.span(v.ws()) {
+        out.violate("C04.untouched_fields", "raw_witness_set_differs_from_serialized_witness_set", format!("step {} node {}: raw_witness_set() is not the witness set of to_bytes()", step, id));
+    }
     if v.span(v.body()) != &f.body[..] {
         out.violate("C04.body_bytes", "serialized_body_differs_from_original", format!("step {} node {}: body bytes in to_bytes() differ from the original", step, id));
     }
